@@ -15,7 +15,7 @@ ROLES_PLAIN = [':ARG0', ':ARG1', ':ARG2', ':op1', ':op2', ':op10', ':mod', ':dom
                ':consist-of', ':prep-on-behalf-of', ':superset', ':subset', ':poss', ':beneficiary', ':name',
                ':foo', ':R', ':', ':snt3', ':wiki', ':time', ':location', ':ARG10', ':role', ':employed-by', ':TOP',
                ':consist', ':prep-on-behalf', ':prep-out-of', ':prep-out', ':mode', ':year2', ':year', ':prep-on',
-               ':instance']
+               ':instance', ':ARG0xyz', ':modabc', ':polarity-on', ':quant-if']
 CONSTS = ['-', '+', '7', '0', '0.0', '-1.5e3', '"a b"', '"x:y(z)"', '"\\"q\\""', '"C:\\\\"', '"e\\\\\\"f"', 'imperative', 'x~y', '"t~1"',
           '"#h"', 'a/b', 'Ω', '"é "', '""', '1e400', 'true', 'null', 'NaN']
 ALNS = ['~1', '~e.2', '~e.1,2', '~E.3', '~x4', '~01', '~2,03']
@@ -230,7 +230,19 @@ def reified_tree(rng):
             else:
                 bs.append((':ARG0-of', rng.choice(used)))
         return (var, bs)
-    return node('a', 0)
+    t = node('a', 0)
+    k = rng.random()
+    if k < 0.15:
+        # the collapsible node is the top of the graph (it must stay: dereify_edges keeps the top)
+        role, concept, sr, tr = rng.choice(AMR_REIFS)
+        tgt = rng.choice(['7', '-', ('q', [('/', 'gamma')])])
+        t = ('_0', [('/', concept), (sr, t), (tr, tgt)])
+    elif k < 0.3:
+        # ... or the target of a further edge (a re-entrancy keeps it a node)
+        rvs = [u for u in used if u.startswith('_')]
+        if rvs:
+            t[1].append((rng.choice([':ARG0', ':op1', ':mod']), rng.choice(rvs)))
+    return t
 
 
 def gen_metadata(rng):
@@ -375,7 +387,8 @@ def model_roles(spec):
 
 
 def gen_role_probe(rng, spec):
-    pool = model_roles(spec) + ROLES_PLAIN + ['', 'ARG0', 'mod', '/', ':a-of-b', ':of', ':-of', '-of', ':x\n', ':ARG0\n',
+    defined = model_roles(spec)
+    pool = defined + [r + rng.choice(['abc', '-on', '-if', 'xof', '123']) for r in defined[:12] if isinstance(r, str)] + ROLES_PLAIN + ['', 'ARG0', 'mod', '/', ':a-of-b', ':of', ':-of', '-of', ':x\n', ':ARG0\n',
                                                ':op', ':op1x', ':ARG', ':ARG12', ':é', 'consist-of', ':mod~1']
     r = rng.choice(pool)
     r += '-of' * rng.choice([0, 0, 1, 1, 2, 3, 4])
@@ -403,7 +416,7 @@ def handbuilt_graph(rng, connected=True, nvars=None):
     triples = []
     for v in vs:
         if maybe(rng, 0.9):
-            c = rng.choice(CONCEPTS + [None])
+            c = rng.choice(CONCEPTS + [None, None, ''])
             triples.append((v, ':instance', c))
     # spanning structure
     if connected:
@@ -456,8 +469,17 @@ def corrupt_markers(rng, g):
             g.epidata[t], g.epidata[u] = g.epidata.get(u, []), g.epidata.get(t, [])
         elif k < 0.9:
             rng.shuffle(g.triples)
-        elif k < 0.95:
+        elif k < 0.93:
             g.triples.remove(t)
+        elif k < 0.96:
+            # a second node context for an already pushed variable, followed by further markers
+            pushed = [(u, e) for u in g.triples for e in g.epidata.get(u, []) if isinstance(e, layout.Push)]
+            if pushed:
+                u, e = rng.choice(pushed)
+                cands = [w for w in g.triples if e.variable in (w[0], w[2])]
+                w = rng.choice(cands) if cands else t
+                g.epidata.setdefault(w, []).extend([layout.Push(e.variable)] + [layout.POP] * rng.randint(0, 2)
+                                                   + ([layout.Push(w[0])] if maybe(rng, 0.3) else []))
         else:
             s = rng.choice(vs)
             g.triples.insert(rng.randrange(len(g.triples) + 1), (s, role(rng), rng.choice(vs + CONSTS)))
@@ -485,8 +507,11 @@ def pick_top(rng, g):
     k = rng.random()
     if k < 0.5 or not vs:
         return None
-    if k < 0.95:
+    if k < 0.93:
         return rng.choice(vs)
+    consts = [t[2] for t in g.triples if isinstance(t[2], str) and t[2] not in vs]
+    if consts and k < 0.97:
+        return rng.choice(consts)     # a constant target (or a concept) is not a variable
     return rng.choice(['zz', '7', ''])
 
 
